@@ -41,6 +41,32 @@ def tsize(o, memo):
     return n
 
 
+def is_cyclic(o, done):
+    """True when the operand graph below o has a cycle (done: ids already known to be acyclic).
+
+    UFL's Abs.__new__ returns its argument for abs(abs(x)) and python then re-runs __init__ on it, which
+    makes the inner Abs its own operand: such an object is not an expression DAG and no traversal of it
+    terminates.  The generator can draw abs(abs(x)); those pieces are thrown away (and counted).
+    """
+    active = set()
+
+    def rec(x, depth):
+        k = id(x)
+        if k in done:
+            return False
+        if k in active or depth > 2000:
+            return True
+        active.add(k)
+        for y in x.ufl_operands:
+            if rec(y, depth + 1):
+                return True
+        active.discard(k)
+        done.add(k)
+        return False
+
+    return rec(o, 0)
+
+
 def clone_terminal(t):
     """A new python object that is structurally the same terminal (or t itself)."""
     try:
@@ -100,14 +126,27 @@ class Work:
         self.U = U = Universe(rng, cell, gdim, itype, cplx)
         self.G = G = Gen(U, rng, cplx=cplx, deriv=rng.choice([0, 1, 2]))
         self.n = n = gdim if gdim > 1 else 2
-        self.S = [G.expr((), rng.choice([1, 2, 2, 3])) for _ in range(rng.randint(2, 4))]
-        self.V = [G.expr((n,), rng.choice([1, 2])) for _ in range(2)]
-        self.A = [G.expr((n, n), rng.choice([1, 2]))]
+        self.acyclic = set()
+        self.keepalive = []
+        self.cyclic_pieces = 0
+        self.S = [self.fresh((), rng.choice([1, 2, 2, 3])) for _ in range(rng.randint(2, 4))]
+        self.V = [self.fresh((n,), rng.choice([1, 2])) for _ in range(2)]
+        self.A = [self.fresh((n, n), rng.choice([1, 2]))]
         for _ in range(rng.randint(4, 12)):
             self.step()
         self.roots = self.make_roots()
 
     # ------------------------------------------------------------------
+    def fresh(self, shape, depth):
+        """A piece from vf.gen that is a DAG (see is_cyclic)."""
+        for _ in range(20):
+            e = self.G.expr(shape, depth)
+            self.keepalive.append(e)  # ids in self.acyclic must stay valid
+            if not is_cyclic(e, self.acyclic):
+                return e
+            self.cyclic_pieces += 1
+        raise RuntimeError("vf.gen keeps producing cyclic expressions")
+
     def size(self, o):
         return tsize(o, self.sz)
 
@@ -121,6 +160,10 @@ class Work:
         if e is None or not isinstance(e, ufl.core.expr.Expr):
             return False
         if tuple(e.ufl_shape) != shape or e.ufl_free_indices:
+            return False
+        self.keepalive.append(e)
+        if is_cyclic(e, self.acyclic):
+            self.cyclic_pieces += 1
             return False
         if self.size(e) > self.cap:
             self.rejected += 1
@@ -196,7 +239,8 @@ class Work:
         if op == "outer":
             return self.keep(A, ufl.outer(v, w) + M if rng.random() < 0.5 else ufl.dot(M, M), (n, n))
         if op == "minmax":
-            return self.keep(S, ufl.max_value(re(a), re(a * b)) + abs(a), ())
+            # (abs of an Abs object would turn that shared object into its own operand, see is_cyclic)
+            return self.keep(S, ufl.max_value(re(a), re(a * b)) + (a if isinstance(a, ufl.classes.Abs) else abs(a)), ())
         if op == "var":
             x = ufl.variable(a)
             if rng.random() < 0.5:
